@@ -109,7 +109,7 @@ def build(cfg, folder=None, model=None):
         from black_it.schedulers.rl.agents.epsilon_greedy import MABEpsilonGreedy
         from black_it.schedulers.rl.envs.mab import MABCalibrationEnv
         from black_it.schedulers.rl.rl_scheduler import RLScheduler
-        kw["scheduler"] = RLScheduler(samplers, MABEpsilonGreedy(len(samplers), -1.0, 0.2, random_state=cfg.get("agent_ctor_seed")),
+        kw["scheduler"] = RLScheduler(samplers, MABEpsilonGreedy(len(samplers), -1.0, cfg.get("agent_eps", 0.2), random_state=cfg.get("agent_ctor_seed")),
                                       MABCalibrationEnv(len(samplers)))
     else:
         kw["samplers"] = samplers
